@@ -323,6 +323,23 @@ Proof.
 Qed.
 Print Assumptions C17_verdict_trunc_units.
 
+(** array_position rendered for a Spark / Databricks session: the engine's own ARRAY_POSITION is NULL for a NULL array
+    (the primitive of the model), so the COALESCE(.., 0) needs the IS NOT NULL guard there as well *)
+Definition C17_verdict_array_position_spark_session_statement : Prop :=
+  if pos_cfg_exact c17_pos_spark && pos_cfg_exact c17_pos_databricks
+  then forall l v, duck_array_position c17_pos_spark l v = spark_array_position l v /\
+                   duck_array_position c17_pos_databricks l v = spark_array_position l v
+  else exists c, (c = c17_pos_spark \/ c = c17_pos_databricks) /\ duck_array_position c None 5 <> spark_array_position None 5.
+Theorem C17_verdict_array_position_spark_session : C17_verdict_array_position_spark_session_statement.
+Proof.
+  unfold C17_verdict_array_position_spark_session_statement.
+  destruct (pos_cfg_exact c17_pos_spark && pos_cfg_exact c17_pos_databricks) eqn:E.
+  - apply andb_prop in E as [E1 E2]. intros l v. split; [exact (array_position_exact _ E1 l v) | exact (array_position_exact _ E2 l v)].
+  - first [ exists c17_pos_spark; split; [left; reflexivity | vm_compute; discriminate]
+          | exists c17_pos_databricks; split; [right; reflexivity | vm_compute; discriminate]
+          | absurd_branch E ].
+Qed.
+
 (** which branch each verdict took on this run (read by the check into the evidence) *)
 Definition C17_exact_flags : list bool :=
   [slice_cfg_ok c17_slice; element_at_cfg_exact c17_element_at; element_at_cfg_exact c17_try_element_at;
